@@ -127,7 +127,7 @@ def _ops(rng, fresh_ok=True):
       if rng.random() < 0.25:
         o = dict(op="fit", opt="adam", lr=5.0)
       else:
-        o = dict(op="fit", opt="sgd", lr=rng.choice([0.05, 0.5, 5.0, 50.0]))
+        o = dict(op="fit", opt="sgd", lr=rng.choice([0.002, 0.05, 0.5, 5.0, 50.0]))
       o["target"] = rng.choice(["anti", "anti", "anti", "pro", "anti_big", "anti_big", "const_lo", "const_hi"])
       ops.append(o)
   return ops
@@ -146,7 +146,8 @@ def _model_desc(rng, kind):
     lo, hi = _bounds(rng, kind)
   elif kind == "linear":
     lo, hi = _bounds(rng, kind, allow_none=True)
-    m["use_bias"] = (lo is None and hi is None and not m["output_calibration"]) and rng.random() < 0.7
+    # use_bias is the config's default True in most models: a bounded / output-calibrated model must ignore it
+    m["use_bias"] = rng.random() < 0.7
   else:
     structure = rng.choice(["explicit", "explicit", "random", "rtl_layer", "rtl_layer"])
     m["structure"] = structure
@@ -161,8 +162,9 @@ def _model_desc(rng, kind):
     if structure == "rtl_layer" or m["param"] == "kronecker_factored":
       same = rng.choice([2, 2, 3])
     lo, hi = _bounds(rng, kind)
-  if kind != "linear" and rng.random() < 0.1 and m["param"] == "all_vertices":
-    lo, hi = rng.choice([(0.0, None), (None, 1.0)])
+  if rng.random() < 0.15 and m["param"] == "all_vertices":
+    # one-sided bounds, incl. a bound that is exactly 0.0 (falsy but set)
+    lo, hi = rng.choice([(0.0, None), (None, 1.0), (None, 0.0), (-1.0, None), (0.0, None)])
     m["output_calibration"] = False
   m["output_min"], m["output_max"] = lo, hi
   a = -1.0 if lo is None else lo
@@ -211,6 +213,24 @@ def gen_descs(ctx):
                 dict(name="c", type="cat", nb=3, pairs=[[0, 1], [1, 2]], default=None, ls=2)],
       ops=[dict(op="fit", opt="sgd", lr=0.5, target="anti"), dict(op="fit", opt="sgd", lr=0.5, target="anti"),
            dict(op="fit", opt="sgd", lr=0.5, target="anti"), dict(op="fit", opt="sgd", lr=0.5, target="anti")], seed=0))
+  # one-sided bound that is exactly 0.0 on a calibrated linear model without output calibration (seeded change
+  # C03-m2: a truthiness test dropped the bound and built an unbounded model with a bias)
+  out.append(dict(
+      model=dict(kind="linear", param="all_vertices", interpolation="hypercube", output_calibration=False,
+                 random_seed=2, use_bias=True, output_min=0.0, output_max=None, output_init=[0.0, 3.0]),
+      features=[dict(name="a", type="num", mono="increasing", dir=1, kps=[0.0, 0.5, 1.0], default=None, ls=2),
+                dict(name="d", type="num", mono=0, dir=0, kps=[0.0, 1.0, 2.0], default=None, ls=2)],
+      ops=[dict(op="fit", opt="sgd", lr=0.05, target="anti"), dict(op="fit", opt="sgd", lr=0.002, target="const_lo"),
+           dict(op="fit", opt="sgd", lr=0.05, target="anti")],
+      seed=5))
+  out.append(dict(
+      model=dict(kind="lattice", param="all_vertices", interpolation="hypercube", output_calibration=False,
+                 random_seed=2, output_min=None, output_max=0.0, output_init=[-3.0, 0.0]),
+      features=[dict(name="a", type="num", mono="increasing", dir=1, kps=[0.0, 0.5, 1.0], default=None, ls=2),
+                dict(name="d", type="num", mono=0, dir=0, kps=[0.0, 1.0, 2.0], default=None, ls=2)],
+      ops=[dict(op="fit", opt="sgd", lr=0.05, target="anti"), dict(op="fit", opt="sgd", lr=0.002, target="const_hi"),
+           dict(op="fit", opt="sgd", lr=5.0, target="const_hi")],
+      seed=6))
   # fixed kronecker_factored single-lattice models (the composed Coq model cal_kfl_eval is compared on them in every
   # run): hostile histories that flip the sign of the scale, new-style AND legacy (per-variable) optimizers
   kfl_feats = [dict(name="a", type="num", mono="increasing", dir=1, kps=[0.0, 0.5, 1.0], default=None, ls=2),
